@@ -34,7 +34,15 @@ def main():
     na = []
     for pid in PROPERTIES:
         if pid in ids and pid not in NA:
-            inf = PROPERTY_INFO.get(pid, {})
+            inf = dict(PROPERTY_INFO.get(pid, {}))
+            # rules registered after the property's summary was written (cross-registrations,
+            # later rounds): named by their rule function
+            import re as _re
+            from sa.rules import rules_for
+            mentioned = set(_re.findall(r'C\d\d\.\d+', ' '.join(inf.get('decided', []))))
+            extra = ['%s %s' % (rid, fn.__name__.replace('_', ' ')) for rid, fn, *_ in rules_for(pid) if rid not in mentioned]
+            if inf.get('decided'):
+                inf['decided'] = list(inf['decided']) + extra
             checks.append({
                 'property_id': pid,
                 'quick_cmd': '/venv/bin/python -m sa %s --tier quick' % pid,
